@@ -1,7 +1,8 @@
 #!/venv/bin/python
 """Copy validated seeded changes from /tmp/seed/out/<id>/ into seeded/<id>/ (patch.diff, demo.py, meta.json, validation.json, detection.json)."""
 import json, os, shutil, sys
-SRC = "/tmp/seed/out"
+SRC = sys.argv[1] if len(sys.argv) > 1 else "/tmp/seed/out"
+OFFSET = int(sys.argv[2]) if len(sys.argv) > 2 else 0   # round 2 seeds Cxx-1, Cxx-2 are kept as Cxx-3, Cxx-4
 ROOT = os.path.dirname(os.path.dirname(os.path.abspath(__file__)))
 kept = 0
 for d in sorted(os.listdir(SRC)):
@@ -13,7 +14,8 @@ for d in sorted(os.listdir(SRC)):
     if not v.get("ok"):
         print("skip (not validated):", d)
         continue
-    t = os.path.join(ROOT, "seeded", d)
+    prop, n = d.rsplit("-", 1)
+    t = os.path.join(ROOT, "seeded", f"{prop}-{int(n) + OFFSET}")
     os.makedirs(t, exist_ok=True)
     for f in ("patch.diff", "demo.py", "meta.json", "validation.json", "detection.json", "patch.orig-tree.diff"):
         if os.path.exists(os.path.join(s, f)):
